@@ -92,7 +92,7 @@ type NativeV struct {
 	Data interface{}
 }
 
-type TimeV struct{ Sec *Term } // Int seconds since epoch
+type TimeV struct{ Sec *Term } // BV64 seconds since epoch
 
 // ---------- type helpers ----------
 
@@ -170,7 +170,7 @@ func zeroTerm(s Sort) *Term {
 
 func zeroVal(t types.Type) Val {
 	if isTimeTime(t) {
-		return &TimeV{Sec: mkInt(0)}
+		return &TimeV{Sec: mkBV(64, 0)}
 	}
 	if s, ok := sortOf(t); ok {
 		return zeroTerm(s)
